@@ -1068,7 +1068,15 @@ func ruleSortTotal(c *Ctx, r *Report) {
 		if !ok {
 			return true
 		}
-		switch FullName(Callee(info, call)) {
+		fn := Callee(info, call)
+		if fn == nil || fn.Pkg() == nil {
+			return true
+		}
+		pkgPath := fn.Pkg().Path()
+		if i := strings.LastIndex(pkgPath, "/"); i >= 0 {
+			pkgPath = pkgPath[i+1:] // slices is imported from golang.org/x/exp on this tree
+		}
+		switch pkgPath + "." + fn.Name() {
 		case "slices.SortFunc", "slices.SortStableFunc", "sort.Slice", "sort.SliceStable":
 			if len(call.Args) == 2 {
 				if fl, ok := call.Args[1].(*ast.FuncLit); ok {
